@@ -1,7 +1,7 @@
 (* C02 -- HTML auto-escaping is sound: unsafe data is escaped exactly once.
    Statements only; proofs in MJ.C02.Proofs.  Model: Lang/Interp.v run with esc = true (see C02/Spec.v
    for the map to utils.rs / output.rs / filters.rs / macro_object.rs and for safe_free, good_binds). *)
-From MJ Require Import Common.Base Lang.Syntax Lang.Meta Lang.Interp C02.Spec C02.Out C02.Proofs C02.Names C02.NamesProofs.
+From MJ Require Import Common.Base Lang.Syntax Lang.Meta Lang.Interp C02.Spec C02.Out C02.Proofs C02.Names C02.NamesProofs C02.Modes C02.ModesProofs.
 
 (* For every program of the core fragment that uses no safe-marking construct (`safe`, autoescape
    blocks) and whose raw template text has none of the four metacharacters - string literals,
@@ -115,6 +115,47 @@ Example default_mode_examples :
   default_mode [120; 46; 121; 109; 108; 46; 106; 105; 110; 106; 97; 50] = MJson.
 Proof. vm_compute. repeat split. Qed.
 
+(* ---- the auto-escape mode as a three-valued, lexically scoped thing (C02/Modes.v: none / html / json) ---- *)
+
+(* `autoescape true` means the template's own initial format (html if that is none) ... *)
+Theorem autoescape_true_is_initial_format : forall initial,
+  derive initial AETrue = match initial with MNone => MHtml | _ => initial end.
+Proof. exact derive_true. Qed.
+
+(* ... and no autoescape block looks at the mode active around it: nested inside an autoescape json
+   block of an .html template, `autoescape true` is HTML again *)
+Theorem autoescape_block_ignores_current_mode : forall tpls fuel initial m m' caller li env a body,
+  mexec tpls fuel initial m caller li env (MAuto a body) = mexec tpls fuel initial m' caller li env (MAuto a body).
+Proof. exact auto_ignores_current. Qed.
+
+(* state restoration: whatever the statements [a] did - blocks entered and left normally, by break or by
+   continue, captures dropped - the statements [b] that follow run under the same mode m *)
+Theorem mode_after_equals_mode_before : forall ex a b m env,
+  mexec_list_with ex m env (a ++ b) =
+  bind (mexec_list_with ex m env a) (fun '(env1, o1, sg) =>
+    match sg with
+    | SNormal => bind (mexec_list_with ex m env1 b) (fun '(env2, o2, sg2) => Ok (env2, o1 ++ o2, sg2))
+    | _ => Ok (env1, o1, sg)
+    end).
+Proof. exact exec_list_app. Qed.
+
+(* in an HTML context nothing raw comes out: a program over html templates whose autoescape blocks are
+   all `true` or "html" - loops with break / continue, with, set-blocks, macros, call blocks, caller(),
+   includes in any nesting - renders without any of the four metacharacters from the datum *)
+Theorem html_context_sound : forall tpls fuel o,
+  forallb (fun t => match fst t with MHtml => forallb html_only (snd t) | _ => false end) tpls = true ->
+  run_modes tpls fuel = Ok o ->
+  forall ch, In ch o -> ch <> 60 /\ ch <> 62 /\ ch <> 34 /\ ch <> 39.
+Proof. intros tpls fuel o Ht H. apply clean_spec. eapply html_context_sound_proof; eauto. Qed.
+
+(* the two shapes of the round-5 seeded changes, in the model: json > true is html; the print after a loop
+   whose body left an `autoescape false` block by continue is html *)
+Example modes_examples :
+  run_modes [(MHtml, [MAuto AEJson [MAuto AETrue [MPrint 9]]])] 10 = Ok (marker 9 MHtml) /\
+  run_modes [(MHtml, [MLoop 2 [MAuto AEFalse [MContinueAt 1; MPrint 1]]; MPrint 24])] 10 = Ok (marker 1 MNone ++ marker 24 MHtml) /\
+  run_modes [(MJson, [MAuto AETrue [MPrint 3]; MInclude 1]); (MNone, [MAuto AETrue [MPrint 4]])] 10 = Ok (marker 3 MJson ++ marker 4 MHtml).
+Proof. vm_compute. repeat split. Qed.
+
 (* non-vacuity: x = "<b>" flows through a macro, a set-block, upper and a loop *)
 Definition ex_ctx := mkCfg Lenient [(100, VStr false [60; 98; 62])] true.
 Definition ex_prog : list stmt :=
@@ -195,3 +236,7 @@ Print Assumptions default_mode_spec.
 Print Assumptions one_ignored_suffix_is_removed.
 Print Assumptions no_ignored_suffix_nothing_removed.
 Print Assumptions dot_ext_is_html.
+Print Assumptions autoescape_true_is_initial_format.
+Print Assumptions autoescape_block_ignores_current_mode.
+Print Assumptions mode_after_equals_mode_before.
+Print Assumptions html_context_sound.
